@@ -162,7 +162,8 @@ class C10(HistoryProperty):
             stash = None
             for i, op in enumerate(case["ops"]):
                 outs = {}
-                for world_kind in ("warm", "cold"):
+                cold_eval_ok = None
+                for world_kind in ("cold", "warm"):
                     world = w if world_kind == "warm" else w.twin(record=False)
                     letters = op.get("calls") if (op.get("calls") and world_kind == "warm") else case["order"]
                     for letter in letters:
@@ -187,6 +188,8 @@ class C10(HistoryProperty):
                         res.bump("partial_visits")
                         continue
                     v, k, e = (outs[(world_kind, x)] for x in ("validate", "keys", "evaluate"))
+                    if world_kind == "cold":
+                        cold_eval_ok = e.ok
                     res.bump("triples")
                     fired_here = bool(world.fired)
                     if any(is_domain_failure(x) for x in (v, k, e)):
@@ -196,7 +199,8 @@ class C10(HistoryProperty):
                         # total mode for this triple
                         if not (v.ok == k.ok == e.ok):
                             viol = res.violate("validate-keys-evaluate-disagree", op_index=i, world=world_kind, node=op["node"], o=op["o"],
-                                               validate=v.brief(), keys=k.brief(), evaluate=e.brief(), order=case["order"])
+                                               validate=v.brief(), keys=k.brief(), evaluate=e.brief(), order=case["order"],
+                                               evaluate_succeeds_on_a_cold_graph=cold_eval_ok if world_kind == "warm" else e.ok)
                             if self.signature(case, viol) == "effect-option-missing-keys-succeeds":
                                 # open known finding: remember one instance and go on with the history
                                 stash = stash or viol
@@ -208,7 +212,11 @@ class C10(HistoryProperty):
                         fail_seen = fail_seen or not e.ok
                     else:
                         res.bump("partial_triples")
-                        if v.ok and (not e.ok) and e.err["root"].endswith("KeyNotFoundError"):
+                        from ..world import cause_chain
+                        from labrea.exceptions import KeyNotFoundError as _KNF
+
+                        # (anywhere in the chain: a body's own KeyError dressed up as a missing option counts as well)
+                        if v.ok and (not e.ok) and any(isinstance(x, _KNF) for x in cause_chain(e.exc)):
                             res.violate("missing-option-after-validate-passed", op_index=i, world=world_kind, node=op["node"], o=op["o"],
                                         evaluate=e.brief(), fired=[list(a) for a in world.fired])
                             break
@@ -229,7 +237,10 @@ class C10(HistoryProperty):
         d = violation.get("detail", {})
         # (evaluate may even succeed: a sibling that forces the effect's option fills the shared cache first, and the hit
         #  skips the effect that validate() insists on)
-        if (violation["kind"] == "validate-keys-evaluate-disagree" and d.get("keys", [""])[0] == "ok" and d.get("validate", [""])[0] == "err"
+        # ... but NOT where evaluate() succeeds only because of what the warm cache holds: then the stored value exists and
+        # validate() has to pass as well (Cached.validate skips validation when the value already exists)
+        only_warm = d.get("evaluate", [""])[0] == "ok" and d.get("evaluate_succeeds_on_a_cold_graph") is False
+        if (violation["kind"] == "validate-keys-evaluate-disagree" and d.get("keys", [""])[0] == "ok" and d.get("validate", [""])[0] == "err" and not only_warm
                 and any(n.get("effects_opt") for n in case["spec"]["nodes"] if n["k"] == "dataset")):
             return "effect-option-missing-keys-succeeds"
         if gen.scalar_at_section_prefix(case["spec"], [op["o"] for op in case["ops"] if "o" in op]):
